@@ -165,6 +165,7 @@ func (s *ProxyServiceWrapper) Dependencies() []string {
 func (s *ProxyServiceWrapper) createProxyConfiguration() *proxy.Configuration {
 	return &proxy.Configuration{
 		ProxyPrefix:         "",
+		Profile:             s.config.Profile, // auto/streaming/standard; without it engines always ran "auto"
 		ConnectionTimeout:   s.config.ConnectionTimeout,
 		ConnectionKeepAlive: 30 * time.Second,
 		ResponseTimeout:     s.config.ResponseTimeout,
